@@ -173,6 +173,10 @@ def get_state(simulator, tstates=True):
     else:
         ram = simulator.memory[0x4000:]
         machine = '48K'
+        if simulator.tracer.outfffd or any(simulator.tracer.ay):
+            # The AY chip has been used on a 48K machine
+            state.extend(f'ay[{n}]={v}' for n, v in enumerate(simulator.tracer.ay))
+            state.append(f'fffd={simulator.tracer.outfffd}')
     return ram, registers, state, machine
 
 def get_registers(config, state, as_array=True):
